@@ -180,7 +180,7 @@ func parseRaces(se string) []raceReport {
 					fn = fn[:i]
 				}
 				r.TopFuncs = append(r.TopFuncs, fn)
-				if !ownerSet && !strings.HasPrefix(fn, "runtime.") && !strings.HasPrefix(fn, "sync.") && !strings.HasPrefix(fn, "sync/atomic.") {
+				if !ownerSet && !isStdlibFrame(fn) {
 					ownerSet = true
 					owners = append(owners, fn)
 				}
@@ -232,6 +232,23 @@ func parseRaces(se string) []raceReport {
 		out = append(out, r)
 	}
 	return out
+}
+
+// isStdlibFrame: runtime and standard-library frames act on behalf of their
+// caller (a bufio.Writer that two goroutines of the library share is the
+// library's race, not bufio's). A package path whose first element has no dot
+// is standard library, except the harness's own module and package main.
+func isStdlibFrame(fn string) bool {
+	if strings.HasPrefix(fn, "verif/sim/") || strings.HasPrefix(fn, "main.") {
+		return false
+	}
+	first := fn
+	if i := strings.IndexByte(first, '/'); i >= 0 {
+		first = first[:i]
+	} else if i := strings.IndexByte(first, '.'); i >= 0 {
+		return true // single-element path: bufio.(*Writer).Write, os.(*File).Write, ...
+	}
+	return !strings.Contains(first, ".")
 }
 
 // crashInfo classifies a child that died without reporting.
